@@ -909,7 +909,7 @@ class RewriteScenario(TransformScenario):
     positions of a file whose name is `FileName::Internal(..)` or `FileName::Custom(s)` with s starting with '<' produce NO
     mappings."""
 
-    FILES = ['dir/test.js', 'test.js', '<anonymous>']
+    FILES = ['dir/test.js', 'test.js', '<anonymous>', 'dir/we\\ird.js']
 
     def grammar(self, ctx, program):
         g = TransformScenario.grammar(self, ctx, program)
@@ -972,6 +972,13 @@ class RewriteScenario(TransformScenario):
         info['obligations'] += 2
         defs = I.P.defs
         file = res['file']
+        for v in info['violations']:
+            if v['role'] == 'transform/source-file-name-is-not-the-base-name':
+                # confirm natively: the `sources` entry of the produced map must be the base name of the file
+                src = 'function f(a, b) { return a + b; }'
+                nat = replay().rewrite(src, {'methods': [{'src': 'plusOperator', 'operator': True}]}, file=file)
+                srcs = json.loads(nat['source_map']).get('sources') if nat.get('ok') and nat.get('source_map') else None
+                v['witness'] = {'input': src, 'file': file, 'agree': srcs is not None and srcs != [file.split('/')[-1]], 'predicted_output': 'sources != [%r]' % file.split('/')[-1], 'native_output': json.dumps(srcs), 'native': {'ok': nat.get('ok'), 'sources': srcs}}
         sfs = res['source_files']
         if len(sfs) != 1:
             info['violations'].append({'prop': 'C09', 'role': 'rewrite/input-registered-%d-times' % len(sfs), 'detail': '', 'witness': {'input': file, 'agree': True, 'note': 'glue-level obligation'}})
@@ -1343,6 +1350,23 @@ class PrintScenario:
         info['sample'] = {'input': json.dumps(desc), 'output': verdict, 'status': 'n/a', 'hooks': 0}
         if verdict == 'unknown':
             raise Unsupported('cvc5 could not decide the print_js query: %s' % model)
+        if res['nonempty_map']:
+            # C12: the content of a modified file carries the embedded map: it ENDS with the trailer built from the map, whatever
+            # the comment handling did before
+            v2, m2 = cvc5_check(list(ctx.solver.assertions()) + [z3.Length(res['pre']) <= 8, z3.Not(z3.SuffixOf(trailer, out))])
+            ctx.queries += 1
+            info['obligations'] += 1
+            if v2 == 'unknown':
+                raise Unsupported('cvc5 could not decide the print_js trailer query: %s' % m2)
+            if v2 == 'sat':
+                code2 = m2.get('code', '')
+                comment2 = ('# sourceMappingURL=' + m2.get('tail', '')) if res['has_comment'] else None
+                smap2 = m2.get('source_map', '')
+                nat2 = replay().print_js(code2, smap2, comment2, {'methods': None, 'comments': res['comments'], 'chain': False})
+                import base64 as _b64
+                tr = '\n//# sourceMappingURL=data:application/json;base64,' + _b64.b64encode(smap2.encode('utf8')).decode('ascii')
+                info['violations'].append({'prop': 'C12', 'role': 'content/embedded-map-trailer-missing-or-altered', 'detail': 'code=%r comment=%r map=%r -> %r' % (code2, comment2, smap2, nat2.get('content')),
+                                           'witness': {'input': code2, 'config': desc, 'agree': bool(nat2.get('ok') and not (nat2.get('content') or '').endswith(tr)), 'native_output': nat2.get('content'), 'predicted_output': '... ' + tr, 'native': {'ok': nat2.get('ok')}, 'note': 'query decided by cvc5'}})
         if verdict == 'sat':
             code = model.get('code', '')
             comment = ('# sourceMappingURL=' + model.get('tail', '')) if res['has_comment'] else None
